@@ -12,7 +12,7 @@ from sa.report import Ctx
 
 from .common import generic_sweeps
 
-from .cp_common import flattener_tags, produced_tags, shape_dispatch_falls_through, structural_len_subjects
+from .cp_common import check_alldiff_coverage, flattener_tags, produced_tags, shape_dispatch_falls_through, structural_len_subjects
 
 EXPLANATION = (
     "Decides structural necessary conditions of 'the CNF has exactly the CP models' on cp_encoder.py: (O1) the "
@@ -192,6 +192,8 @@ def run(ctx: Ctx):
         ctx.ob("C06-O3", "R12 NO-CARDINALITY-CUTOFF", f, "no emission is skipped by a collection-size cut-off", not cuts, "", node=f.node)
     ctx.floor("_encode_* functions", n_enc, 13)
 
+    check_alldiff_coverage(ctx, "C06-O6")
+
     # O4 dispatch totality / expression tags
     ctags, etags = produced_tags(ctx)
     ne = ctx.func(ENCMOD, "SATEncoder._encode_ne_expr")
@@ -205,6 +207,18 @@ def run(ctx: Ctx):
     # ne_expr: empty clause when the constant constraint is false; unit/negated unit on the final partial sum
     t = ast.unparse(ne.node)
     ctx.ob("C06-O4", "R11 TOTAL-DISPATCH", ne, "constant constraint that is false emits the empty clause", "self._clauses.append([])" in t, "", node=ne.node)
+    # the partial-sum chain starts from {k * v: literal}: injective only for k != 0, so zero coefficients must be
+    # dropped AFTER both sides were merged (a variable that cancels across the sides has coefficient 0 only then)
+    ncfg = cfg_of(ne.node)
+    terms = [n for n in own_nodes(ne.node) if isinstance(n, ast.Assign) and ast.unparse(n.targets[0]) == "terms"]
+    merge = [n for n in own_nodes(ne.node) if isinstance(n, ast.For) and "right_coefs" in ast.unparse(n.iter)]
+    ok = len(terms) == 1 and len(merge) == 1
+    if ok:
+        comp = terms[0].value
+        ok = isinstance(comp, ast.ListComp) and any(ast.unparse(i) in ("k != 0", "0 != k") for g in comp.generators for i in g.ifs) and "coefs.items()" in ast.unparse(comp.generators[0].iter)
+        mnode = ncfg.stmt_node_containing(merge[0].iter)
+        ok = ok and ncfg.dominates(mnode, ncfg.node_of(terms[0]))
+    ctx.ob("C06-O4", "R11 TOTAL-DISPATCH", ne, "zero-coefficient variables are dropped from the chain after both sides are merged", ok, "a variable with coefficient 0 as first term collapses the reachable-sum table to a single literal", node=terms[0] if terms else ne.node)
     _fixture(ctx)
 
     # O5 decode
@@ -295,7 +309,20 @@ def _t_reformat(tree):
     pass
 
 
+def _v_zero_filter_early(tree):
+    g = M.find_func(tree, "SATEncoder._encode_ne_expr")
+    M.replace_expr(g, lambda e: isinstance(e, ast.ListComp) and M.src_has(e, "self.model._vars[name]"), lambda e: M.expr("[(self.model._vars[name], k) for name, k in coefs.items()]"))
+
+
+def _t_alldiff_hull(tree):
+    g = M.find_func(tree, "SATEncoder._encode_all_different")
+    g.body = M.stmts("lo = min((v.lb for v in variables))\nhi = max((v.ub for v in variables))\nfor val in range(lo, hi + 1):\n    lits = []\n    for var in variables:\n        if val in var.bool_vars:\n            lits.append(var.bool_vars[val])\n    if len(lits) > 1:\n        self._encode_at_most_one(lits)")
+
+
 VARIANTS = [
+    M.Variant("zero-coefficient terms kept in the partial-sum chain (seed C06-B)", ENC, _v_zero_filter_early, "C06-O4"),
+    M.Variant("twin: all_different over the hull min(lb)..max(ub)", ENC, _t_alldiff_hull, None),
+
     M.Variant("cumulative skips time points with more than 10 literals (original defect)", ENC, _v_cutoff, "C06-O3"),
     M.Variant("all_different skips values shared by 8 or more variables", ENC, _v_alldiff_cutoff, "C06-O3"),
     M.Variant("all_different needs more than two candidates", ENC, _v_alldiff_cutoff2, "C06-O3"),
